@@ -53,3 +53,9 @@ claim("C02",
   "Each schedule posts a real file, lets one or two honest registered providers join and prove once per file window at generated offsets (window edges and reward heights weighted up) and runs every block's storage BeginBlocker through the window after the last proof. Oracle: challenge always < ceil(size/chunk); honest proof accepted; prover still listed and burn counter \"0\" after every reward block; utils.BuildTree root equals the reference root. Thorough adds the exhaustive sub-space W,C in [2,9] x S in [1,WC] x join {0,1} x offsets {0,W/2,W-1}^3 (104,544 schedules).",
   "Falsification only outside the enumerated sub-space; owner's plan comes from a real purchase; CollateralPrice lowered by a parameter change.",
   "DESIGN.md section 4 C02")
+
+claim("C03",
+  "model-based property test (rapid) over generated file/prover/gauge configurations on a fork of the real app; before/after snapshot oracle at every reward block with big.Int share bands and pairwise proportionality",
+  "Real files with real Merkle proofs, 2-6 provers joining in generated order, a generated subset (at generated list positions) stops proving, gauges of 1..1e15 ujkl, several reward blocks. At each reward block: prover lists must equal 'before minus those that missed' (the model knows every accepted proof height), burn counters rise by exactly the number of missed files, each counted prover's payout lies in [floor(R*c/N_all)-1, floor(R*c/N_counted)+1], payouts are pairwise proportional, uncounted accounts receive nothing, sum paid <= released. The skip/double-visit defect found this way is fixed in /repo (1f17aed0).",
+  "The obligation rule (young, or last accepted proof in the current or previous file window) is the reading shared with C02; share denominators: both readings accepted; amounts <= 1e15.",
+  "DESIGN.md section 4 C03")
